@@ -186,9 +186,57 @@ def module_mutables(src):
             elif isinstance(n, ast.AnnAssign) and isinstance(n.target, ast.Name) and n.value is not None:
                 tgt, val = n.target.id, n.value
             if tgt and isinstance(val, (ast.Dict, ast.List, ast.Set, ast.DictComp, ast.ListComp, ast.SetComp)) or (
-                    tgt and isinstance(val, ast.Call) and isinstance(val.func, ast.Name) and val.func.id in ("dict", "list", "set", "defaultdict", "OrderedDict")):
+                    tgt and isinstance(val, ast.Call) and _ctor_name(val.func) in MUTABLE_CTORS):
                 out.setdefault(m, set()).add(tgt)
     return out
+
+
+MUTABLE_CTORS = {"dict", "list", "set", "defaultdict", "OrderedDict", "WeakKeyDictionary", "WeakValueDictionary", "WeakSet", "Counter", "deque", "ChainMap", "bytearray"}
+
+
+def _ctor_name(f):
+    return f.id if isinstance(f, ast.Name) else f.attr if isinstance(f, ast.Attribute) else None
+
+
+def module_state_findings(src, qual, contracted=()):
+    """module-state findings of ONE function and of the module-level helpers it calls by bare name that are not themselves
+    under a contract (those are, in effect, inlined into it): [(function, line, text)].  Used as a frame obligation of every
+    function under contract - a contract states the result as a function of the arguments, which a cache or registry breaks."""
+    memo = src.__dict__.setdefault("_module_state_memo", {})
+    if "fns" not in memo:
+        memo["fns"], memo["muts"], memo["written"] = functions(src), module_mutables(src), {}
+        for q2, (m2, n2, _c) in memo["fns"].items():
+            for cat, line, why in scan(n2, memo["muts"].get(m2, set())):
+                if cat == "module-state" and "container" in why:
+                    memo["written"].setdefault(m2, set()).update(x for x in memo["muts"].get(m2, set()) if x in why)
+    fns, muts = memo["fns"], memo["muts"]
+    if qual not in fns:
+        return []
+    todo, seen, out = [qual], set(), []
+    while todo:
+        q = todo.pop()
+        if q in seen:
+            continue
+        seen.add(q)
+        m, n, cls = fns[q]
+        for cat, line, why in scan(n, muts.get(m, set())):
+            if cat == "module-state":
+                out.append((q, line, why))
+        # reads of a module-level container that some function of the module mutates
+        written = memo["written"].get(m, set())
+        for x in ast.walk(n):
+            if isinstance(x, ast.Name) and isinstance(x.ctx, ast.Load) and x.id in written:
+                out.append((q, x.lineno, f"reads the module-level container {x.id}, which the module mutates"))
+        for x in ast.walk(n):
+            if isinstance(x, ast.Call) and isinstance(x.func, ast.Name):
+                q2 = f"{m}.{x.func.id}"
+                if q2 in fns and q2 not in contracted and q2 not in seen:
+                    todo.append(q2)
+    # one finding per (function, line)
+    uniq = {}
+    for q, line, why in out:
+        uniq.setdefault((q, line), why)
+    return [(q, line, why) for (q, line), why in sorted(uniq.items())]
 
 
 def obligations(ctx):
